@@ -99,6 +99,14 @@ theorem dark_never_rounds_up (fpn : Int → Nat → K) (rate f : K) (hf : ¬ 0 <
   rw [dark_no_fpn_eq_floor_rate fpn rate f hf]
   exact ⟨Int.floor_lt.mpr h, Int.floor_le _⟩
 
+/-- the Rule-07 rate as the source computes it (regenerated) is proportional to the pixel AREA: a pixel `c` times larger collects
+`c²` times the dark current, at every temperature and cut-off wavelength (a statement about the translated expression, so an edit
+of the area or unit-conversion factors in the source is seen here) -/
+theorem rule07_rate_scales_with_pixel_area (exp : K → K) (pow : K → K → K) (lit : Nat → Bool → Nat → K) (T cw px c : K) :
+    rule07Rate exp pow lit T cw (c * px) = c * c * rule07Rate exp pow lit T cw px := by
+  simp only [rule07Rate, Gen.rule07Rate]
+  ring
+
 /-- with pattern noise the frame is `floor(rate · fpn)`: non-negative for a non-negative rate (lognormal draws are positive) -/
 theorem dark_fpn_nonneg (fpn : Int → Nat → K) (hfpn : ∀ s i, 0 < fpn s i) (rate f : K) (hr : 0 ≤ rate) (seed : Int) (i : Nat) :
     0 ≤ darkCurrent Int.floor fpn rate f seed i := by
@@ -145,6 +153,35 @@ theorem power_spectrum_rms_exact [LinearOrder K] [IsStrictOrderedRing K] (sqrt :
   simp only [this, ← Finset.sum_mul, hs]
   rw [← hSdef]
   field_simp
+
+/-- … over the **mask**: for a binary mask and filtered noise that is non-zero on it (probability 1), the count the code uses
+(`count_nonzero(opd)`) is the number of mask pixels, so the mean square of the surface over the mask is exactly `rms²` -/
+theorem power_spectrum_rms_over_mask [LinearOrder K] [IsStrictOrderedRing K] (sqrt : K → K) (hsq : ∀ y, 0 ≤ y → sqrt y * sqrt y = y)
+    (rms : K) (mask : Nat → K) (x : Int → Nat → K) (seed : Int) (n : Nat)
+    (hbin : ∀ i, i < n → mask i = 0 ∨ mask i = 1) (hx : ∀ i, i < n → mask i = 1 → x seed i ≠ 0)
+    (hne : ∃ i, i < n ∧ mask i = 1) :
+    countNonzero (fun y => decide (y ≠ 0)) n (fun i => x seed i * mask i) = ((List.range n).filter fun i => decide (mask i = 1)).length ∧
+    (∑ i ∈ range n, powerSpectrum (fun y => decide (y ≠ 0)) sqrt (· / ·) (fun k => (k : K)) rms mask x seed n i ^ 2)
+      = (((List.range n).filter fun i => decide (mask i = 1)).length : K) * rms ^ 2 := by
+  have hcount : countNonzero (fun y => decide (y ≠ 0)) n (fun i => x seed i * mask i)
+      = ((List.range n).filter fun i => decide (mask i = 1)).length := by
+    unfold countNonzero
+    congr 1
+    apply List.filter_congr
+    intro i hi
+    have hi' : i < n := List.mem_range.mp hi
+    rcases hbin i hi' with h0 | h1
+    · simp [h0]
+    · simp [h1, hx i hi' h1]
+  refine ⟨hcount, ?_⟩
+  rw [← hcount]
+  apply power_spectrum_rms_exact sqrt hsq
+  obtain ⟨i, hi, hm⟩ := hne
+  have hpos : 0 < (x seed i * mask i) * (x seed i * mask i) := by
+    rw [hm, mul_one]; exact mul_self_pos.mpr (hx i hi hm)
+  have hle : (x seed i * mask i) * (x seed i * mask i) ≤ ∑ j ∈ range n, (x seed j * mask j) * (x seed j * mask j) :=
+    Finset.single_le_sum (f := fun j => (x seed j * mask j) * (x seed j * mask j)) (fun j _ => mul_self_nonneg _) (Finset.mem_range.mpr hi)
+  exact ne_of_gt (lt_of_lt_of_le hpos hle)
 
 /-- the surface scales linearly with the requested RMS (and nothing else depends on it) -/
 theorem power_spectrum_homogeneous (sqrt : K → K) (rms k : K) (mask : Nat → K) (x : Int → Nat → K) (seed : Int) (n i : Nat) :
